@@ -62,11 +62,104 @@ def first_diff(a, b, upto):
     return None
 
 
+def footprint_scan(repo):
+    """Syntactic half of the assumption "a step reads only the current forcing row": inside
+    UWG.simulate every subscript of self.forcIP.<field> is [self.ceil_time_step] (the whole-window
+    mean of forcIP.temp in the nSoil<3 branch is the documented exception), and no other module of
+    the package mentions the rural containers at all."""
+    import ast
+    import re
+    bad, nsub = [], 0
+    src = open(os.path.join(repo, 'uwg', 'uwg.py'), 'rb').read().decode('utf-8', 'ignore')
+    tree = ast.parse(src)
+    sim = [n for n in ast.walk(tree) if isinstance(n, ast.FunctionDef) and n.name == 'simulate']
+    if len(sim) != 1:
+        return ['UWG.simulate not found'], 0
+    for n in ast.walk(sim[0]):
+        if isinstance(n, ast.Subscript) and isinstance(n.value, ast.Attribute) and \
+                isinstance(n.value.value, ast.Attribute) and n.value.value.attr == 'forcIP':
+            nsub += 1
+            idx = ast.unparse(n.slice)
+            if idx != 'self.ceil_time_step':
+                bad.append('simulate: self.forcIP.%s[%s]' % (n.value.attr, idx))
+        if isinstance(n, ast.Attribute) and n.attr in ('weather', 'epwinput', '_header', 'climate_data'):
+            bad.append('simulate reads self.%s (line %d)' % (n.attr, n.lineno))
+    whole = [ast.unparse(n) for n in ast.walk(sim[0]) if isinstance(n, ast.Call) and
+             'forcIP' in ast.unparse(n) and isinstance(n.func, ast.Name) and n.func.id in ('sum', 'len')]
+    for w in whole:
+        if not re.fullmatch(r'(sum|len)\(self\.forcIP\.temp\)', w):
+            bad.append('simulate: whole-window read %s' % w)
+    for fn in sorted(os.listdir(os.path.join(repo, 'uwg'))):
+        if fn.endswith('.py') and fn not in ('uwg.py', 'weather.py', 'forcing.py', '__init__.py'):
+            t = open(os.path.join(repo, 'uwg', fn), 'rb').read().decode('utf-8', 'ignore')
+            for name in ('forcIP', 'epwinput', '_climate_data', 'staTemp', 'staRhum'):
+                if re.search(r'\b%s\b' % name, t):
+                    bad.append('%s mentions %s' % (fn, name))
+    return bad, nsub
+
+
+def toy_cases(chk, n, bad_dt=False):
+    """Real simulate loop with toy physics vs Lean Sim.simulate with the same toy physics."""
+    import simdriver
+    import simtoy
+    rng = chk.rng
+    divs = [d for d in range(1, 3601) if 3600 % d == 0 and d >= 20]
+    cases = []
+    for k in range(n):
+        dt = rng.choice(divs) if not (bad_dt and k % 3 == 0) else rng.choice([7, 480, 96, 540, 1000, 2700, 3601, 7200])
+        month, day = rng.choice([(1, 1), (2, 28), (4, 30), (7, 4), (12, 30), (12, 31), (10, 31)])
+        days = rng.choice([1, 1, 2]) if (month, day) != (12, 31) else 1
+        if (month, day) == (12, 30):
+            days = min(days, 2)
+        nsoil3 = rng.random() < 0.6
+        raise_mod = rng.choice([0, 0, 97, 211, 53])
+        s0 = rng.randint(0, 999)
+        codes = [rng.randint(0, 999) for _ in range(24 * days)]
+        if not nsoil3:      # make the window mean an integer so that int() is exact
+            codes[-1] += (-sum(codes)) % len(codes)
+        try:
+            with core.quiet():
+                m = simdriver.build_model(month, day, days, dt)
+        except ZeroDivisionError:
+            cases.append((None, 'err zerodiv []'))
+            continue
+        except Exception as e:  # SimParam refuses the timestep in generate()
+            line = 'sim dt=%d M=%d D=%d days=%d nsoil3=%d mean=0 raise=%d s0=%d rows=[%s]' % (
+                dt, month, day, days, 1 if nsoil3 else 0, raise_mod, s0, ';'.join(map(str, codes)))
+            cases.append((line, 'err timestep []' if 'TIMESTEP' in str(e) else 'err ' + type(e).__name__))
+            continue
+        recs, err, mean = simtoy.toy_run(m, codes, s0, raise_mod, nsoil3)
+        line = 'sim dt=%d M=%d D=%d days=%d nsoil3=%d mean=%d raise=%d s0=%d rows=[%s]' % (
+            dt, month, day, days, 1 if nsoil3 else 0, mean or 0, raise_mod, s0, ';'.join(map(str, codes)))
+        ans = ('ok ' if err is None else 'err %s ' % err) + '[' + ';'.join(map(str, recs)) + ']'
+        cases.append((line, ans))
+    return [c for c in cases if c[0]]
+
+
 def run(chk):
     chk.proof(MODULE, THEOREMS)
     if chk.tier == 'thorough':
         chk.leanchecker([MODULE])
     rng = chk.rng
+    fbad, nsub = footprint_scan(core.REPO)
+    if fbad:
+        chk.corr_problems.append({'tie': 'footprint-scan', 'case': '; '.join(fbad[:4]),
+                                  'impl': 'reads rural data other than the current forcing row',
+                                  'model': 'physics step reads (state, current row, clock, deep temperature)'})
+    chk.direct('footprint-scan(AST of UWG.simulate)', nsub + 1, nsub + 1,
+               'every subscript of self.forcIP.<field> inside simulate is [self.ceil_time_step]; whole-window '
+               'reads only sum/len(self.forcIP.temp); no other module mentions the rural containers',
+               mismatches=len(fbad), samples=fbad[:3] or ['%d forcIP subscripts, all at ceil_time_step' % nsub])
+    cases = toy_cases(chk, 24 if chk.tier == 'quick' else 200)
+    chk.correspond('simulate(toy physics)~Sim.simulate', 'C03', cases,
+                   rule='the REAL UWG.simulate loop with the physics replaced from outside by a toy step that '
+                        'folds everything a step may read (forcing row, clock view, deep temperature) into an '
+                        'integer code, vs Lean Sim.simulate with the same toy physics: hourly records (and the '
+                        'records stored before an exception) must be identical; random divisors of 3600, start '
+                        'dates incl. month and year end, 1-2 days, both ground-temperature modes, raising toys',
+                   nontrivial=lambda l, a: '[' in a and a.split('[')[1] != ']',
+                   classify=lambda l, a: a.split(' ')[0] + ('-' + a.split(' ')[1] if a.startswith('err') else '') +
+                   ('/nsoil3' if 'nsoil3=1' in l else '/mean'))
     work = chk.work()
     base_path = U.rp(U.EPW_SGP)
     base = load_epw(base_path)
